@@ -217,6 +217,14 @@ add(property='C09', id='C09-object-medium', status='fixed', commit='b5e523d', cl
          'geometric instead of an optical path: 36 waves error at 1.26 deg for n0 = 1.1',
     reproducer=json.load(open(os.path.join(HERE, 'known_cases', 'C09-object-medium.json'))))
 
+add(property='C11', id='C11-pupil-mask-count', status='fixed', commit='13c730d', clause='no_exception',
+    what='fixed: property=C11 13c730d FFTPSF masked its pupil grid with sqrt(x^2+y^2) <= 1 while the rays come from the '
+         'uniform distribution (x^2+y^2 <= 1): for some samplings (num_rays = 31: 709 against 705 points) the PSF could not '
+         'be computed (ValueError); noticed by a seeding agent, then reproduced by sampling num_rays over 16..64',
+    reproducer={'spec': spec([surf(R=40.0, t=5.0, mat=glass(1.6), stop=True), surf(R=-60.0, t=38.0)], ap=('EPD', 8.0),
+                             fields=(0.0, 2.0)),
+                'N': 31, 'G': 64, 'fld': 0, 'defocus': 0.0, 'clip': False, 'ideal': False, 'mtf': False})
+
 add(property='C01', id='C01-solve-slope', status='fixed', commit='08843a4', clause='solve_places_marginal_ray',
     what='fixed: property=C01 08843a4 marginal_ray_height solve (and image_solve) used the marginal slope behind the '
          'moved surface: on a powered surface the requested height was missed (two mirrors, R=5: 2.0 instead of 0.0)',
